@@ -92,15 +92,15 @@ theorem parseTokens_sound (hV : SemverAgree) (hS : StmtSound) (st : PState) (d :
   obtain ⟨dir, st4, ⟨t1, st1, ⟨k1, rfl, rfl⟩, pkg, st2, ⟨k2, hpkg, rfl⟩, tg, st3, htg, t4, st4', ⟨k4, rfl, rfl⟩,
     hdir⟩, ss, st5, hss, hd⟩ := h
   cases hdir; cases hd
-  have l1 := len_of_peekTok k1
-  have l2 := len_of_peekTok k2
-  have l4 := len_of_peekTok k4
+  have l1 := len_of_nextTok k1
+  have l2 := len_of_nextTok k2
+  have l4 := len_of_nextTok k4
   have hagree := pkgNameAt_agree hV (tokAt (adv st))
   rw [hpkg] at hagree
   rcases htg with ⟨k3, path, ⟨k3', hpath, rfl⟩, rfl⟩ | ⟨k3, _, rfl, rfl⟩
   · -- with `targets`
-    have l3 := len_of_peekTok k3
-    have l3' := len_of_peekTok k3'
+    have l3 := len_of_nextTok k3
+    have l3' := len_of_nextTok k3'
     have hwf3 : WF (adv (adv (adv st))) := hwf.adv.adv.adv
     have hpagree := pkgPathAt_agree hV (tokAt (adv (adv (adv st)))) (hwf3.shape k3')
     rw [hpath] at hpagree
@@ -128,8 +128,8 @@ theorem parseTokens_complete (hV : SemverAgree) (hS : StmtSound) (hC : StmtCompl
   have hagree := pkgNameAt_agree hV (tokAt (adv st))
   rw [hpkg] at hagree
   obtain ⟨pkg, hpkg0, rfl⟩ := Option.map_eq_some_iff.mp hagree
-  have l1 := len_of_peekTok k1
-  have l2 := len_of_peekTok k2
+  have l1 := len_of_nextTok k1
+  have l2 := len_of_nextTok k2
   have hfuel : st.toks.length + 2 + 2 ≤ fuelFor st.toks.length := by unfold fuelFor; omega
   rcases hrest with ⟨k3, k3', tg, r2, ⟨path', hpath, rfl, rfl⟩, u, r3, hsemi, ss', r4, hm, _, rfl, rfl⟩ |
     ⟨k3, ss', r4, hm, _, rfl, rfl⟩
@@ -140,9 +140,9 @@ theorem parseTokens_complete (hV : SemverAgree) (hS : StmtSound) (hC : StmtCompl
     obtain ⟨path, hpath0, rfl⟩ := Option.map_eq_some_iff.mp hpagree
     simp at hsemi
     obtain ⟨k4, rfl⟩ := hsemi
-    have l3 := len_of_peekTok k3
-    have l3' := len_of_peekTok k3'
-    have l4 := len_of_peekTok k4
+    have l3 := len_of_nextTok k3
+    have l3' := len_of_nextTok k3'
+    have l4 := len_of_nextTok k4
     obtain ⟨ss, st', hss, rfl⟩ := parseStatements_complete hS hC _ _ hfuel hm rfl _ rfl hwf3.adv.adv
       ((adv (adv (adv (adv (adv st))))).toks.length + 1) (by omega)
     have hopt : parseOptional (adv (adv st)) .TargetsKeyword parsePackagePath =
@@ -153,12 +153,12 @@ theorem parseTokens_complete (hV : SemverAgree) (hS : StmtSound) (hC : StmtCompl
         parsePackageName_eq_ok.mpr ⟨k2, hpkg0, rfl⟩, hopt, parseToken_ok k4, hss, Except.ok_bind]
     · simp [eraseDocument, erasePackageDirective]
   · -- without
-    have l3 := len_of_peekTok k3
+    have l3 := len_of_nextTok k3
     obtain ⟨ss, st', hss, rfl⟩ := parseStatements_complete hS hC _ _ hfuel hm rfl _ rfl hwf.adv.adv.adv
       ((adv (adv (adv st))).toks.length + 1) (by omega)
     have hopt : parseOptional (adv (adv st)) .TargetsKeyword parsePackagePath =
         .ok (none, adv (adv st)) :=
-      parseOptional_eq_ok.mpr (.inr ⟨by simp [k3], peekErr_of_peekTok k3, rfl, rfl⟩)
+      parseOptional_eq_ok.mpr (.inr ⟨by simp [k3], peekErr_of_nextTok k3, rfl, rfl⟩)
     refine ⟨⟨parseDocs st, ⟨pkg, none⟩, ss⟩, ?_, ?_⟩
     · simp only [parseTokens, parsePackageDirective, parseToken_ok k1,
         parsePackageName_eq_ok.mpr ⟨k2, hpkg0, rfl⟩, hopt, parseToken_ok k3, hss, Except.ok_bind]
